@@ -358,6 +358,8 @@ def families(tier):
         Flat('flat_comma_list', ',', 'list', 1),
         Flat('flat_comma_list_half', ',', 'list', 0.5),
         Flat('flat_multichar_delim', '::', 'list', 1, tiers=('thorough',)),
+        Flat('flat_delim_with_spaces', ', ', 'list', 0.5),          # a delimiter that ends in whitespace: blank first/last items
+        Flat('flat_delim_space_semicolon_space', ' ; ', 'string', 1, tiers=('thorough',)),
         Flat('flat_string_answers', ',', 'string', 0.5),
         Flat('flat_inferred_expect', ',', 'infer', 1),
         TwoAnswerLists(),
